@@ -254,10 +254,11 @@ func (w *chanWaiter) ready() bool {
 
 // caseReady tells whether a case can be carried out now, without side effects: a
 // buffered channel by its fill, an unbuffered one by the tasks parked on it. Whether
-// an empty channel has been closed can only be learnt by receiving from it, which on a
-// closed channel takes nothing away; should that receive ever deliver a value (a
-// goroutine that is not a task parked in a real send: there is none), the receive has
-// happened and is reported as such (took).
+// a channel has been closed can only be learnt by operating on it: a receive from an
+// empty closed channel takes nothing away, a send to a closed channel panics (caught
+// here, raised again where the case is carried out). Should such a probe ever complete
+// an exchange (with a goroutine that is not a task, parked in a real operation: there
+// is none), the operation has happened and is reported as such (took).
 //
 //go:norace
 func (s *Sim) caseReady(c *SelCase) (ok, took bool, x any, sent bool) {
@@ -266,13 +267,19 @@ func (s *Sim) caseReady(c *SelCase) (ok, took bool, x any, sent bool) {
 	}
 	n := c.ch.Cap()
 	if c.send {
-		if n > 0 {
-			return c.ch.Len() < n, false, nil, false
-		}
-		if w, _ := s.partner(c.ch, false); w != nil {
+		if n > 0 && c.ch.Len() < n {
 			return true, false, nil, false
 		}
-		return false, false, nil, false
+		if n == 0 {
+			if w, _ := s.partner(c.ch, false); w != nil {
+				return true, false, nil, false
+			}
+		}
+		// closed? A send on a closed channel must panic (in the sender, when it carries
+		// the case out), also when the buffer is full. The non-blocking send tells: on an
+		// open channel it does nothing here (full, or nobody parked in a real receive).
+		closed, sent := probeSend(c)
+		return closed || sent, sent, nil, false
 	}
 	if c.ch.Len() > 0 {
 		return true, false, nil, false
@@ -289,6 +296,16 @@ func (s *Sim) caseReady(c *SelCase) (ok, took bool, x any, sent bool) {
 		return true, false, nil, false // closed: receiving from it again gives the same
 	}
 	return
+}
+
+//go:norace
+func probeSend(c *SelCase) (closed, sent bool) {
+	defer func() {
+		if recover() != nil {
+			closed = true
+		}
+	}()
+	return false, c.trySend()
 }
 
 // carryOut performs case i, which was found ready.
